@@ -14,3 +14,9 @@ import TephraProps.C16
 #print axioms Tephra.Props.C14_partial
 #print axioms Tephra.Props.C10_match_no_panic_no_fuel
 #print axioms Tephra.Props.C16_render_total_report
+#print axioms Tephra.Props.C01_report_total
+#print axioms Tephra.Props.C01_report_total_any
+#print axioms Tephra.Props.C01_run_report_total_from
+#print axioms Tephra.Props.C01_run_report_total
+#print axioms Tephra.Props.C01_harness_report_total
+#print axioms Tephra.Props.C01_count_report_panics
